@@ -151,3 +151,84 @@ def run(ctx) -> None:  # noqa: F811
     ctx.require(n >= 1, f"R-BLOCKFLAGS found no sub-distribution constructor in DistributionFromValues")
     _inner_run_c19(ctx)
 
+
+
+# =============================================================================================
+# ---- added after the mutation sweep (round 4): blocks reach the result; arguments addressed by their own indices
+_inner_run_c19b = run
+
+BLOCKFLOW_TARGETS = [
+    ("abtem.scan", "CustomScan", "_partition_args"),
+    ("abtem.scan", "LineScan", "_partition_args"),
+    ("abtem.scan", "GridScan", "_partition_args"),
+    ("abtem.inelastic.phonons", "FrozenPhonons", "_partition_args"),
+    ("abtem.inelastic.phonons", "AtomsEnsemble", "_partition_args"),
+    ("abtem.potentials.iam", "CrystalPotential", "_partition_args"),
+    ("abtem.distributions", "DistributionFromValues", "divide"),
+    ("abtem.array", "ArrayObject", "_partition_args"),
+    ("abtem.array", "ArrayObject", "_partition_ensemble_axes_metadata"),
+]
+
+
+def run(ctx) -> None:  # noqa: F811
+    from ..model import AnalysisError
+    from ..rules import argindex, blockflow
+
+    ctx.rule("R-BLOCKFLOW", blockflow.__doc__.split("\n\n", 1)[1])
+    ctx.rule("R-ARGINDEX", argindex.__doc__.split("\n\n", 1)[1])
+    pending = []
+    n = 0
+    try:
+        argindex.check(ctx, ctx.repo.method("abtem.core.ensemble", "Ensemble", "ensemble_blocks"),
+                       ctx.repo.method("abtem.core.ensemble", "Ensemble", "generate_blocks"))
+    except AnalysisError as e:
+        pending.append(e)
+    for m, c, fn in BLOCKFLOW_TARGETS:
+        try:
+            n += blockflow.check(ctx, ctx.repo.method(m, c, fn))
+        except AnalysisError as e:
+            pending.append(e)
+    # the degenerate cases are taken only when they apply
+    from . import c20, c36
+
+    ctx.rule("R-DELEGATE", "(shared with C36) MultidimensionalDistribution.divide hands the work to its only component "
+             "exactly when there is one, with the caller's chunks and lazy passed to the parameters of the same name; "
+             "with two components it does not return the blocks of a single component")
+    ctx.rule("R-NONEMPTY", "(shared with C20) CustomScan._partition_args returns the empty argument tuple only for a scan "
+             "without positions: the return that does not depend on the validated chunks is guarded by a test that is "
+             "true only for an empty position list")
+    for step in (lambda: c36._multi_divide(ctx, ctx.repo, ctx.repo.cls(c36.MOD, c36.MULTI)),
+                 lambda: c20._nonempty_guard(
+                     ctx, ctx.repo.method("abtem.scan", "CustomScan", "_partition_args"),
+                     lambda c: call_name(c) == "self._validate_ensemble_chunks",
+                     lambda e: dotted(e) in ("self.positions", "self._positions"),
+                     "the validated chunks", "an empty argument tuple")):
+        try:
+            step()
+        except AnalysisError as e:
+            pending.append(e)
+    _inner_run_c19b(ctx)
+    if pending:
+        raise pending[0]
+    ctx.require(n >= 30, f"R-BLOCKFLOW examined only {n} instances")
+
+
+# ---- round 4, continued: the (array block, metadata) pair of ArrayObject._partition_args in both arms
+_inner_run_c19c = run
+
+
+def run(ctx) -> None:  # noqa: F811
+    from ..model import AnalysisError
+    from ..rules import blockpair
+
+    ctx.rule("R-BLOCKPAIR", blockpair.__doc__.split("\n\n", 1)[1])
+    err = None
+    try:
+        n = blockpair.check(ctx, ctx.repo.method("abtem.array", "ArrayObject", "_partition_args"),
+                            ctx.repo.method("abtem.array", "ArrayObject", "_partition_ensemble_axes_metadata"))
+        ctx.require(n >= 3, f"R-BLOCKPAIR examined only {n} instances")
+    except AnalysisError as e:
+        err = e
+    _inner_run_c19c(ctx)
+    if err is not None:
+        raise err
